@@ -6,6 +6,7 @@ import GoImap.Lemmas.ClientConcSend
 import GoImap.Lemmas.ClientConcPend
 import GoImap.Lemmas.ClientConcClose
 import GoImap.Lemmas.ClientConcCont
+import GoImap.Lemmas.ClientConcNoPanic
 /-!
   C13 — the client is safe for concurrent use. Property theorems about `GoImap.ClientConc`
   (Model/ClientConc.lean: one step per c.mutex / c.encMutex critical section or channel operation,
@@ -36,6 +37,8 @@ import GoImap.Lemmas.ClientConcCont
     completion_never_blocks  the send of a completion finds an existing channel with a free buffer
     reader_reaches_close     the reader's program is empty only after close(decCh); once the
                              connection is closed none of its instructions is ever blocked
+    no_panic                 the model never reaches the panic state (no send on a closed channel,
+                             no second close of a done / FETCH / continuation-request channel)
     closer_never_stuck       while Close has not returned, the reader or the closer is enabled
     no_stuck_closer          from every reachable state the reader and the closer alone make Close
                              return within `mu` steps (all other steps only decrease `mu`): Close
@@ -50,9 +53,6 @@ import GoImap.Lemmas.ClientConcCont
     f26_enabled_lockset_counterexample; plus the same schedules on the repaired model.
 
   Partial / not proved (validated by the oracle on every enforced schedule and -race workload):
-    * the statements about Close carry the disjunct "or the process has panicked" (`crashed`): that
-      the repaired model never panics (no second close of a done/msgs channel) is not proved; the
-      oracle clause `command-completed-twice` judges every run
     * contreq_fifo does not state that requests of two different commands never coexist in the
       queue (which makes the grant of a "+" unambiguous); that part is judged by the oracle clause
       `continuation-request-misrouted` on every run
@@ -225,16 +225,24 @@ theorem complete_exactly_once (v : Variant) (sc : Scenario) (sched : List Nat) :
     · exact absurd (hq t hts) hne
   · exact h3
 
+/-- no_panic: the repaired model never reaches the panic state, in any schedule: a completion is
+    sent while `closeDone` of the same command is still ahead (the channel is open), `closeDone` and
+    `closeMsgs` of a command occur once, a continuation request is granted once and never after it
+    was cancelled -/
+theorem no_panic (v : Variant) (hv : v.initFirst = true) (sc : Scenario) (sched : List Nat) :
+    (run v (init v sc) sched).crashed = false :=
+  never_crashes v hv sc sched.length sched rfl
+
 /-- the reader always reaches `close(decCh)`: its program consists of reader and completion
     instructions only; when it is empty `decCh` and the connection are closed; and (repaired code)
     once the connection is closed none of its instructions is ever blocked -/
 theorem reader_reaches_close (v : Variant) (hv : v.initFirst = true) (sc : Scenario) (sched : List Nat) :
     let s := run v (init v sc) sched
     (s.prog tReader = [] → s.decClosed = true ∧ s.connClosed = true) ∧
-    (s.crashed = false → s.connClosed = true → s.prog tReader ≠ [] → enabled v s tReader = true) := by
+    (s.connClosed = true → s.prog tReader ≠ [] → enabled v s tReader = true) := by
   intro s
   have h := closeCtx_run v hv sched (init v sc) (closeCtx_init v sc)
-  refine ⟨fun he => ?_, fun hcr hc hne => reader_enabled v s h.rd h.send h.once hcr hc hne⟩
+  refine ⟨fun he => ?_, fun hc hne => reader_enabled v s h.rd h.send h.once (no_panic v hv sc sched) hc hne⟩
   have hl := h.rd.last
   rw [he] at hl
   exact hl
@@ -245,27 +253,33 @@ theorem every_step_decreases (v : Variant) (s : St) (t : Nat) :
     (enabled v s t = true → mu (step v s t) < mu s) ∧ (enabled v s t = false → step v s t = s) :=
   ⟨step_decreases v s t, step_eq_of_not_enabled v s t⟩
 
-/-- no_stuck_closer, part 2: as long as `Close` has not returned (and the process has not
-    panicked), the reader or the closer is enabled: `Close` is never stuck -/
+/-- no_stuck_closer, part 2: as long as `Close` has not returned, the reader or the closer is
+    enabled: `Close` is never stuck -/
 theorem closer_never_stuck (v : Variant) (hv : v.initFirst = true) (sc : Scenario) (sched : List Nat) :
     let s := run v (init v sc) sched
-    s.crashed = false → s.prog tCloser ≠ [] → enabled v s tReader = true ∨ enabled v s tCloser = true := by
-  intro s hcr hne
-  exact closer_progress v s (closeCtx_run v hv sched (init v sc) (closeCtx_init v sc)) hcr hne
+    s.prog tCloser ≠ [] → enabled v s tReader = true ∨ enabled v s tCloser = true := by
+  intro s hne
+  exact closer_progress v s (closeCtx_run v hv sched (init v sc) (closeCtx_init v sc))
+    (no_panic v hv sc sched) hne
 
 /-- no_stuck_closer: from every reachable state of the repaired model, the reader and the closer
     alone bring `Close` to return in at most `mu` steps, whatever the other threads did before; all
     other steps only decrease `mu`. Hence `Client.Close` returns in every schedule that keeps
-    scheduling these two threads. (`crashed` = the process panicked.) -/
+    scheduling these two threads. -/
 theorem no_stuck_closer (v : Variant) (hv : v.initFirst = true) (sc : Scenario) (sched : List Nat) :
     let s := run v (init v sc) sched
     ∃ more : List Nat, (∀ t, t ∈ more → t = tReader ∨ t = tCloser) ∧ more.length ≤ mu s ∧
-      ((run v (init v sc) (sched ++ more)).prog tCloser = [] ∨
-       (run v (init v sc) (sched ++ more)).crashed = true) := by
+      (run v (init v sc) (sched ++ more)).prog tCloser = [] := by
   intro s
   obtain ⟨more, h1, h2, h3⟩ := close_returns_from v hv (mu s) s
     (closeCtx_run v hv sched (init v sc) (closeCtx_init v sc)) (Nat.le_refl _)
-  exact ⟨more, h1, h2, by rw [run_append]; exact h3⟩
+  refine ⟨more, h1, h2, ?_⟩
+  rw [run_append]
+  rcases h3 with h3 | h3
+  · exact h3
+  · have := no_panic v hv sc (sched ++ more)
+    rw [run_append] at this
+    rw [this] at h3; cases h3
 
 /-- part of no_stuck_closer: in the repaired code (any variant that initialises before registering)
     a completion is never blocked, so neither the reader nor Close can hang the way F21 did.
